@@ -489,6 +489,19 @@ def gen_collx(tier, rng):
             docs = docs[:pos] + [m] + docs[pos:]
             vias = [VIAS[0]] + rng.sample(VIAS[1:], n_via - 1)     # default arguments always
             add(docs, rng.randint(1, len(docs) - 1), vias)
+    # a rule with a malformed detection section (its log source is intact) met by a VALID filter that applies to it - through
+    # "any" + log source, or through the rule's name -, in front of and behind it (seed C07s1: the filter re-validated the
+    # placeholder detections of collecting mode and raised)
+    vf_any = {"title": "VF any", "logsource": dict(LS), "filter": {"rules": "any", "fsel": {"User": "adm"}, "condition": "not fsel"}}
+    vf_name = {"title": "VF name", "logsource": dict(LS), "filter": {"rules": ["bad", "r1"], "fsel": {"User|contains": "adm"}, "condition": "fsel"}}
+    badbase = rule(name="bad")
+    bad = [m for m in mutants(badbase, rng, False)
+           if isinstance(m, dict) and m.get("logsource") == badbase["logsource"] and m.get("name") == "bad" and m.get("detection") != badbase["detection"]]
+    bad += [dict(copy.deepcopy(d), name="bad") for d in SINGLES]
+    for m in rng.sample(bad, min(len(bad), 160 if full else 14)):
+        vf = rng.choice([vf_any, vf_name])
+        docs = rng.choice([[vf, m, same_ls_rule("r1", LS)], [m, same_ls_rule("r1", LS), vf], [same_ls_rule("r1", LS), vf, m]])
+        add(copy.deepcopy(docs), rng.randint(1, 2), [VIAS[0], rng.choice(VIAS[1:])])
     # two malformed documents, malformed filter + malformed rule with the same log source
     for _ in range(400 if full else 30):
         (k1, d1), (k2, d2) = rng.choice(bases), rng.choice(bases)
